@@ -364,7 +364,7 @@ def isInstall (prog : Prog) : Bool :=
 /-- the ghost flag `pub` (own rename succeeded) as a function of the program counter -/
 def PubOk (prog : Prog) (pub : Bool) : Pc → Prop
   | .start | .iVerify | .iRename _ => pub = false
-  | .iAddOpen | .iAddLock | .iAddCreate | .iAddCreateLock | .iAddClose .. => pub = true
+  | .iAddOpen | .iAddTouch | .iAddLock | .iAddCreate | .iAddCreateLock | .iAddClose .. => pub = true
   | .gOpen | .gLock | .gScanOpen .. | .gScanLock .. | .gMove .. => isInstall prog = true → pub = true
   | .gClose _ r => r.isInst = false ∧ (isInstall prog = true → pub = true)
   | .uClosePkg _ r => r.isInst = false
